@@ -1,0 +1,99 @@
+//go:build verif
+
+package verifspec
+
+// TTHeader info sections as total functions on byte strings (from the TTHeader layout
+// description): every function returns the length it parses at the start of b, or -1.
+
+// Str2BLen: a string with a 2-byte big-endian length prefix.
+func Str2BLen(b []byte) int {
+	if len(b) < 2 {
+		return -1
+	}
+	n := int(BE16(b, 0))
+	if len(b)-2 < n {
+		return -1
+	}
+	return 2 + n
+}
+
+// IntKVsLen: n entries (uint16 key, 2-byte-length string).
+func IntKVsLen(b []byte, n int) int {
+	if n <= 0 {
+		return 0
+	}
+	if len(b) < 2 {
+		return -1
+	}
+	v := Str2BLen(From(b, 2))
+	if v < 0 {
+		return -1
+	}
+	r := IntKVsLen(From(b, 2+v), n-1)
+	if r < 0 {
+		return -1
+	}
+	return 2 + v + r
+}
+
+// StrKVsLen: n entries (2-byte-length string key, 2-byte-length string value).
+func StrKVsLen(b []byte, n int) int {
+	if n <= 0 {
+		return 0
+	}
+	k := Str2BLen(b)
+	if k < 0 {
+		return -1
+	}
+	v := Str2BLen(From(b, k))
+	if v < 0 {
+		return -1
+	}
+	r := StrKVsLen(From(b, k+v), n-1)
+	if r < 0 {
+		return -1
+	}
+	return k + v + r
+}
+
+// InfoOK: b consists of complete info sections (padding 0x00, string kv 0x01, int kv 0x10,
+// acl token 0x11) up to its end. 1 if so, -1 otherwise.
+func InfoOK(b []byte) int {
+	if len(b) == 0 {
+		return 1
+	}
+	switch b[0] {
+	case 0x00:
+		return InfoOK(From(b, 1))
+	case 0x01:
+		if len(b) < 3 {
+			return -1
+		}
+		r := StrKVsLen(From(b, 3), int(BE16(b, 1)))
+		if r < 0 {
+			return -1
+		}
+		return InfoOK(From(b, 3+r))
+	case 0x10:
+		if len(b) < 3 {
+			return -1
+		}
+		r := IntKVsLen(From(b, 3), int(BE16(b, 1)))
+		if r < 0 {
+			return -1
+		}
+		return InfoOK(From(b, 3+r))
+	case 0x11:
+		r := Str2BLen(From(b, 1))
+		if r < 0 {
+			return -1
+		}
+		return InfoOK(From(b, 1+r))
+	}
+	return -1
+}
+
+// ProtoOK: the protocol ids TTHeader decoding accepts.
+func ProtoOK(id byte) bool {
+	return id == 0x00 || id == 0x03 || id == 0x04 || id == 0x10 || id == 0x11
+}
